@@ -1,4 +1,6 @@
 import SamplyModel.Lemmas.ConvFinal
+import SamplyModel.Lemmas.ConvEntry
+import SamplyModel.Lemmas.ConvNoPanic
 /-!
 # C01 — perf.data import conserves samples
 
@@ -36,64 +38,16 @@ specification fold `accStep` (`Conv.run_sim`) under the invariant
 * `C01_buffered_eq_accepted`: buffered samples = accepted samples as multisets — `removeProc` parks a
   non-empty buffer, every other helper re-inserts the process with the same buffer.
 
-Then the flush keeps entry / time of every buffered sample with weight 1 (`C01_flushAll_no_loss_partial`, kept
-from the first instalment; the `_partial` lemmas are the flush-stage facts, now subsumed) and `views` is a
-partition of the flushed samples by entry index (`Conv.views_perm`), dropping nothing because all indices are
-valid.
+Then the flush keeps entry / time of every buffered sample with weight 1 (`Conv.flushBuffer_proj`,
+`Conv.flushAll_proj` in `Lemmas/ConvFinal.lean`) and `views` is a partition of the flushed samples by entry index
+(`Conv.views_perm`), dropping nothing because all indices are valid.
 -/
 open Conv ConvSpec
-
-/-- Flushing a buffer yields exactly one output sample per buffered sample, in order, on the thread entry
-the sample was tagged with, at its recorded time and with weight 1 — whatever the mapping queue and the
-perf map are. -/
-theorem C01_flush_no_loss_partial (pm maps : List MapAdd) (q : List (Nat × MapAdd)) (us : List USample) :
-    (flushBuffer pm maps q us).map (fun o => (o.1, o.2.t, o.2.weight)) = us.map (fun u => (u.th, u.t, u.weight)) := by
-  induction us generalizing maps q with
-  | nil => rfl
-  | cons u rest ih =>
-    unfold flushBuffer
-    simp only [List.map_cons]
-    rw [ih]
-
-/-- The same for the whole flush: the output samples are the concatenation of all parked and live buffers. -/
-theorem C01_flushAll_no_loss_partial (s : St) :
-    (flushAll s).map (fun o => (o.1, o.2.t, o.2.weight)) =
-      (allBuffers s).flatMap (fun b => b.1.map (fun u => (u.th, u.t, u.weight))) := by
-  unfold flushAll
-  rw [List.map_flatMap]
-  congr 1
-  funext b
-  exact C01_flush_no_loss_partial (perfMapTable s.cfg b.2.2) [] b.2.1 b.1
 
 /-- Samples of the idle thread (tid 0) change nothing. -/
 theorem C01_idle_ignored (s : St) (pid t : Nat) (km : Bool) (period ip : Nat) (chain : List Nat) :
     step s (.sample pid 0 t km period ip chain) = s := by
   simp [step]
-
-theorem accStep_no_idle (st : Last × List Acc) (r : Rec) (h : ∀ a ∈ st.2, a.tid ≠ 0) :
-    ∀ a ∈ (accStep st r).2, a.tid ≠ 0 := by
-  cases r with
-  | sample pid tid t km period ip chain =>
-    simp only [accStep]
-    split
-    · exact h
-    · split
-      · exact h
-      · intro a ha
-        simp only [List.mem_append, List.mem_singleton] at ha
-        rcases ha with ha | ha
-        · exact h a ha
-        · subst ha; assumption
-  | exit pid tid t => simp only [accStep]; split <;> exact h
-  | comm pid tid name isExec t =>
-    cases isExec
-    · exact h
-    · simp only [accStep]; split <;> exact h
-  | fork => exact h
-  | mmap2 => exact h
-  | switchIn => exact h
-  | switchOut => exact h
-  | sched => exact h
 
 /-- The specification never accepts an idle-thread sample. -/
 theorem C01_accepted_no_idle (rs : List Rec) : ∀ a ∈ accepted rs, a.tid ≠ 0 := by
@@ -197,6 +151,47 @@ theorem C01_conservation (cfg : Config) (rs : List Rec) (hr : cfg.reuse = false)
   rw [List.map_map]
   rfl
 
+/-- **Conservation of samples, keyed by entry** (default options, histories inside the FORK / EXEC grammar
+`Life.grammarOk` — where the eager lifecycle `Life` is the judged reading of the record history, `C17_refines`):
+the recorded samples of the output, keyed by the *entry strings* of the thread entry that carries them
+(`pid` / `pid.1` / …, `tid` / `tid.1` / …), their time and weight, are exactly the accepted samples of the history,
+each on the entry of the process and thread **incarnation** that was current when the sample was taken
+(`acceptedInc`: the pid / tid suffixes `Life` assigns, read right after the sample's own record). So a sample
+never lands in the entry of an earlier or later incarnation of the same pid — e.g. on the wrong side of an EXEC
+(`C17_exec_splits_samples`). This is what `judgeC01` compares on samply's output inside the grammar. -/
+theorem C01_conservation_entry (cfg : Config) (rs : List Rec) (hr : cfg.reuse = false)
+    (hg : Life.grammarOk cfg.ref rs = true) :
+    List.Perm
+      ((views (run cfg rs)).flatMap (fun v => (C01_recorded v).map (fun o => (v.pid, v.tid, o.t, o.weight))))
+      ((acceptedInc cfg.ref rs).map
+        (fun a => (idStr a.pid a.psuffix, idStr a.tid a.tsuffix, a.t - cfg.ref, 1))) := by
+  obtain ⟨g, g1, g2, g3⟩ := entry_run cfg rs hr hg
+  have hsim := run_sim cfg rs
+  generalize run cfg rs = s at hsim g2 g3
+  have h1 := C01_recorded_perm s hsim.inv (fun u hu => (hsim.sok u hu).1)
+    (fun v o => (v.pid, v.tid, o.t, o.weight))
+    (fun i t w => ((entStr s i).1, (entStr s i).2, t, w))
+    (fun i te v hte hv o => by
+      have := viewOf_str hte hv
+      simp only [← this])
+  refine h1.trans ?_
+  have h2 : ((buffered s).filter (fun u => !u.synth)).map (fun u => ((entStr s u.th).1, (entStr s u.th).2, u.t, u.weight)) =
+      (projU (buffered s)).map (fun x => ((entStr s x.1).1, (entStr s x.1).2, x.2.1, x.2.2)) := by
+    unfold projU
+    rw [List.map_map]; rfl
+  rw [h2]
+  refine (g2.map _).trans (List.Perm.of_eq ?_)
+  rw [← g1, List.map_map, List.map_map]
+  apply List.map_congr_left
+  intro x hx
+  simp only [Function.comp, g3 x hx]
+
+/-- The incarnation-tagged samples `acceptedInc` are the accepted samples, in order, each with two more fields:
+`C01_conservation_entry` refines `C01_conservation` (same pid, tid, time; plus the incarnation). -/
+theorem C01_acceptedInc_accepted (ref : Nat) (rs : List Rec) :
+    (acceptedInc ref rs).map (fun a => (a.pid, a.tid, a.t)) = (accepted rs).map (fun a => (a.pid, a.tid, a.t)) :=
+  acceptedInc_accepted ref rs
+
 /-- with thread reuse enabled samples may be merged into entries of earlier incarnations, but still every
     accepted sample appears exactly once at its time with weight 1 and no other recorded sample appears -/
 theorem C01_conservation_reuse (cfg : Config) (rs : List Rec) :
@@ -269,8 +264,8 @@ theorem C01_membership (cfg : Config) (rs : List Rec) (hr : cfg.reuse = false) (
 model carries this as `St.bad` (`wake` → `CS.stepSafe`); the driver prints `panic` when it is set, and the
 conservation theorems above are statements about `views (run cfg rs)` of a conversion that did not panic.
 `ConvSpec.samplesMonotone rs` (per thread incarnation, accepted sample times never decrease) is the hypothesis
-under which a recording without context-switch records does not panic there; every file that keeps perf's
-round contract satisfies it. Outside it the debug build panics: -/
+under which a recording without context-switch records does not panic there (`C01_no_panic` below); every file
+that keeps perf's round contract satisfies it. Outside it the debug build panics: -/
 
 /-- One sample step: with no off-CPU bookkeeping pending (`cs.state = .on t0`, the state every sampled thread
 of a recording without switch records is in), the conversion panics exactly when the sample is older than
@@ -298,6 +293,19 @@ theorem C01_backdated_sample_panics :
       .sample 100 100 3000 false 1 0x10 []] = true := by
   refine ⟨by decide, by decide, by decide, by decide⟩
 
+/-- **No panic.** For every configuration (`--reuse-threads` included) and every record history without context-switch records / sched_switch
+samples in which, per thread incarnation (cut at EXIT / EXEC as in `accStep`), the sample timestamps never decrease
+(`ConvSpec.samplesMonotone`; true of every perf.data file that keeps perf's round contract), the conversion
+performs no failing `u64` operation of `ContextSwitchHandler` — `St.bad` stays false — for every off-CPU mode and
+every interval (0 included: without switch records the interval is never divided by). So the conservation theorems
+above describe the output of every such conversion. The excluded point is `C01_backdated_sample_panics`; the judges
+answer not-applicable on a `panic` output exactly when `samplesMonotone` is false (`panicVerdict`). Thread-object
+invariant behind it (`Lemmas/ConvNoPanic.lean`): no off-CPU stack stored, context-switch state `Unknown` before the
+first sample of the incarnation and `On(t)` after a sample at `t`. -/
+theorem C01_no_panic (cfg : Config) (rs : List Rec) (hcs : hasCsRec rs = false)
+    (hm : samplesMonotone rs = true) : (run cfg rs).bad = false :=
+  no_panic_run cfg rs hcs hm
+
 /-! ### Non-vacuity -/
 def C01_exHistory : List Rec :=
   [.comm 100 100 "p" false 10, .sample 100 100 12 false 1 0x10 [], .sample 100 100 12 false 1 0x10 [],
@@ -311,6 +319,16 @@ example : ((views (run { ref := 12 } C01_exHistory)).flatMap (fun v => v.samples
 
 /-- the hypotheses of `C01_conservation` hold for the default configuration, and both sides are non-trivial -/
 example : ({ ref := 12 } : Config).reuse = false := rfl
+
+/-- the hypotheses of `C01_conservation_entry` and `C01_no_panic` hold for this history; pid 100 is re-created on
+demand after its EXIT, so the later samples belong to the second incarnation (`100.1`) -/
+example : Life.grammarOk 12 C01_exHistory = true ∧ hasCsRec C01_exHistory = false ∧
+    samplesMonotone C01_exHistory = true ∧
+    (acceptedInc 12 C01_exHistory).map (fun a => (idStr a.pid a.psuffix, idStr a.tid a.tsuffix, a.t - 12)) =
+      [("100", "100", 0), ("100.1", "100.1", 2), ("100.1", "101", 2)] ∧
+    ((views (run { ref := 12 } C01_exHistory)).flatMap (fun v => v.samples.map (fun o => (v.pid, v.tid, o.t)))) =
+      [("100", "100", 0), ("100.1", "100.1", 2), ("100.1", "101", 2)] ∧
+    (run { ref := 12 } C01_exHistory).bad = false := by decide
 
 /-- Thread reuse: tid 101 ("w") exits, tid 102 is forked and named "w" and takes over the entry of 101. -/
 def C01_exReuse : List Rec :=
